@@ -63,6 +63,14 @@ theorem seeded_apis_deterministic {σ : Type} (P : Prog σ) (hcov : Covers Facts
     OptLowEq (exec P fuel (.call e) e1) (exec P fuel (.call e) e2) :=
   noninterference P e (cleanAll_sound FactsC17.table P hcov _ seeded_apis_clean e he) fuel e1 e2 hl
 
+/-- ... and leaves the process-global generator where it was: the state of `random` /
+    `numpy.random` after a seeded call is the state before it (observed by the harness on every
+    call, `global_rng_untouched`). -/
+theorem seeded_apis_leave_global_untouched {σ : Type} (P : Prog σ) (hcov : Covers FactsC17.table P)
+    (e : FnId) (he : e ∈ FactsC17.entries) (fuel : Nat) (e1 e1' : Env σ)
+    (hex : exec P fuel (.call e) e1 = some e1') : Untouched e1 e1' :=
+  clean_leaves_global_untouched P e (cleanAll_sound FactsC17.table P hcov _ seeded_apis_clean e he) fuel e1 e1' hex
+
 /-- The property in its own words: same arguments (`args`) and the same integer seed give the
     same result whatever the global generators `g1 g2` (state of the global RNG / what was called
     before), the hash orders `h1 h2` (PYTHONHASHSEED) and the completion orders `w1 w2` of the
